@@ -378,3 +378,67 @@ pub fn replay(mut run: Run, cases: &[GCase], cache: &ConfirmCache, r: &Value) ->
     }
     run.finish()
 }
+
+
+/// Generic adversary against any gadget built from variable-base curve-addition rows:
+/// for every such row inside the gadget and for each OPERAND role (first / second)
+/// whose coordinates the gadget allocated itself, the second solution (u, v) of the
+/// row's two addition identities with the other operand and the result held fixed —
+/// an off-curve pair in general — together with the matching helper wire x1*y2.
+/// (u q + v p = x3 (1 + d u v p q), v q + u p = y3 (1 - d u v p q) is linear in (u, v)
+/// for fixed t = u v, so t obeys a quadratic whose other root Vieta gives.)
+/// The identities alone do not exclude it; only what else the gadget pins does.
+pub fn add_row_role_forgeries(h: &Honest) -> Vec<Dev> {
+    use crate::m1::{edwards_d, QVAR};
+    let mut devs = vec![];
+    let snap = &h.snap;
+    let (lo, hi) = (h.meta.lo, h.meta.hi);
+    let own = |w: usize| w >= lo && w < hi;
+    let n = snap.gates.len();
+    for row in 0..n.saturating_sub(1) {
+        let g = &snap.gates[row];
+        if g.q[QVAR] == zero() {
+            continue;
+        }
+        let nx = &snap.gates[row + 1];
+        let val = |w: usize| snap.witnesses[w];
+        let (x1, y1, x2, y2) = (val(g.w[0]), val(g.w[1]), val(g.w[2]), val(g.w[3]));
+        let (x3, y3) = (val(nx.w[0]), val(nx.w[1]));
+        let helper = nx.w[3];
+        for first in [true, false] {
+            // unknown operand (u, v) on wires (wu, wv); known operand (p, q)
+            let (wu, wv, u0, v0, p, q) = if first { (g.w[0], g.w[1], x1, y1, x2, y2) } else { (g.w[2], g.w[3], x2, y2, x1, y1) };
+            if !own(wu) || !own(wv) || !own(helper) || wu == wv {
+                continue;
+            }
+            let det = q * q - p * p;
+            if det == zero() {
+                continue;
+            }
+            let di = inv(det);
+            let k = edwards_d() * p * q;
+            let a0 = (q * x3 - p * y3) * di;
+            let a1 = k * (q * x3 + p * y3) * di;
+            let b0 = (q * y3 - p * x3) * di;
+            let b1 = -(k * (q * y3 + p * x3)) * di;
+            let qa = a1 * b1;
+            if qa == zero() {
+                continue;
+            }
+            let t0 = u0 * v0;
+            // t0 + t1 = -(a0 b1 + a1 b0 - 1) / (a1 b1)
+            let t1 = -(a0 * b1 + a1 * b0 - one()) * inv(qa) - t0;
+            if t1 == t0 {
+                continue;
+            }
+            let (u, v) = (a0 + a1 * t1, b0 + b1 * t1);
+            if u * v != t1 {
+                // the honest pair was not a root (the row is already violated): nothing to forge
+                continue;
+            }
+            let w = if first { u * q } else { p * v };
+            devs.push(Dev { script: vec![(wu, u), (wv, v), (helper, w)], tag: format!("second-root/row{}/{}-operand", row, if first { "first" } else { "second" }), must_confirm: true });
+        }
+    }
+    devs
+}
